@@ -1,6 +1,7 @@
 """C28 — Manifest generation is deterministic, idempotent, parseable and atomic."""
 import ast
 
+from ..core import generic as G
 from ..core import astutil as A
 from ..core import atomic
 from ..core import match as M
@@ -208,6 +209,11 @@ def _rest(ctx, P, up, ml, pm, loops):
     ctx.check("R5", up, dm is not None and len(dcomp.generators) == 1 and A.unparse(dcomp.generators[0].target) == dm["f"] and "fetchables" in A.names_in(dcomp.generators[0].iter),
               "dist-entries", "DIST entries: basename + the fetchable's checksums")
     ctx.floor("R5", 7)
+
+    # ---- R6 generating a Manifest reads its inputs, it does not edit them --------------------------------------------
+    G.pure(ctx, "R6", [("pkgcore.ebuild.digest", "_manifest_line", (), "the checksum mapping belongs to the fetchable / the parsed Manifest; a regeneration must find it intact"),
+                        ("pkgcore.ebuild.digest", "Manifest.update", ("self:",), "update refreshes this Manifest object; the fetchables are inputs")])
+    ctx.floor("R6", 2)
 
 
 F = "src/pkgcore/ebuild/digest.py"
